@@ -70,12 +70,18 @@ def registered_ties(pid):
     p = os.path.join(VERIF, "harness", "ties.json")
     if not os.path.exists(p):
         return []
-    return json.load(open(p)).get(pid, [])
+    out = []
+    for t in json.load(open(p)).get(pid, []):
+        t = dict(t)
+        if "." not in t["module"]:
+            t["module"] = "BumpverVerif.Proofs." + t["module"]          # short form for Proofs/Tie_<name>.lean
+        out.append(t)
+    return out
 
 
 def import_closure(pid):
     """Lean source files in the import closure of Props/<pid>.lean and of the property's registered ties (project files only)."""
-    seen, todo = set(), ["BumpverVerif.Props.%s" % pid] + ["BumpverVerif.Proofs.%s" % t["module"] for t in registered_ties(pid)]
+    seen, todo = set(), ["BumpverVerif.Props.%s" % pid] + [t["module"] for t in registered_ties(pid)]
     while todo:
         m = todo.pop()
         if m in seen:
@@ -204,14 +210,17 @@ def build_and_audit(pid, tier="quick"):
         # the property's registered source-level ties (generated definition = hand model), each its own obligation
         ties = registered_ties(pid)
         if ties:
-            rc, out = lake_build(["BumpverVerif.Proofs.%s" % t["module"] for t in ties])
+            rc, out = lake_build(sorted(set(t["module"] for t in ties)))
             if rc != 0:
                 res.ok = False
                 res.stage = res.stage or "tie-build"
                 res.output += out
                 failed = sorted(set(re.findall(r"error: (?:\S*?/)?(BumpverVerif/\S+?\.lean)", out)))
                 res.failed_modules = sorted(set(res.failed_modules) | set(failed))
-                res.failed_ties = [t for t in ties if any(("/" + t["module"] + ".lean") in f or ("F_" + t["module"][4:] + ".lean") in f for f in failed)] or ties
+                def _hit(t):
+                    base = t["module"].rsplit(".", 1)[-1]
+                    return any(("/" + base + ".lean") in f or (base.startswith("Tie_") and ("F_" + base[4:] + ".lean") in f) for f in failed)
+                res.failed_ties = [t for t in ties if _hit(t)] or ties
     finally:
         fcntl.flock(lockf, fcntl.LOCK_UN)
         lockf.close()
@@ -227,7 +236,7 @@ def build_and_audit(pid, tier="quick"):
         if ties:
             af = os.path.join(LEAN, ".lake", "verif-tie-audit-%s.lean" % pid)
             with open(af, "w") as f:
-                f.write("".join("import BumpverVerif.Proofs.%s\n" % t["module"] for t in ties) + "open BV\n" +
+                f.write("".join("import %s\n" % m for m in sorted(set(t["module"] for t in ties))) + "open BV\n" +
                         "".join("#print axioms %s\n" % t["theorem"] for t in ties))
             p2 = subprocess.run(["lake", "env", "lean", af], cwd=LEAN, capture_output=True, text=True)
             txt += "\n" + p2.stdout + p2.stderr
@@ -423,8 +432,11 @@ class Check:
             broken.append("build/audit stage '%s' failed: modules=%s bad_axioms=%s forbidden=%s" % (
                 b.stage, b.failed_modules, b.bad_axioms, b.forbidden[:5]))
             for t in getattr(b, "failed_ties", []):
-                broken.append("source-level tie %s no longer checks: the Lean definition regenerated from %s is not (provably) the hand model any more" % (
-                    t["theorem"], t.get("python", "?")))
+                if t.get("python"):
+                    broken.append("source-level tie %s no longer checks: the Lean definition regenerated from %s is not (provably) the hand model any more" % (
+                        t["theorem"], t["python"]))
+                else:
+                    broken.append("theorem %s (%s) no longer checks" % (t["theorem"], t["module"]))
         if self.disagreements:
             broken.append("correspondence: %d disagreement(s) between model and implementation" % len(self.disagreements))
         if broken and not self.violations:
